@@ -36,7 +36,8 @@ Definition fut_set (f new : fstate) : res fstate := if fdone f then Err EInvalid
 (* Future.cancel() *)
 Definition fut_cancel (f : fstate) : fstate := if fdone f then f else FCancelled.
 
-Inductive wstate := WNotAwaited | WWaiting | WValidating (d : N) | WDone.
+(* the task running _wait_for_data; [WDone o t] = finished at virtual time t with result/exception o *)
+Inductive wstate := WNotAwaited | WWaiting | WValidating (d : N) | WDone (o : outcome) (t : N).
 Inductive vstate := VNone | VStart (d : N) | VInFlight (d : N) | VFinished.
 
 Record entry := mkE { e_id : N; e_cbp : bool; e_dig : option N }.
@@ -216,7 +217,7 @@ Definition cleaning (l : list (N * irec)) (pn : name) (nid : N) (e : entry) : bo
   | Some r => wants_cleanup r && name_eqb r.(i_name) pn && (r.(i_node) =? nid)
   | None => false
   end.
-Definition done (i : N) (r : irec) (o : outcome) (t : N) : eff := mkEff (set_wait r WDone) [] [] [(i, o, t)].
+Definition done (i : N) (r : irec) (o : outcome) (t : N) : eff := mkEff (set_wait r (WDone o t)) [] [] [(i, o, t)].
 Definition ws_rec (fe : frontend) (nw : N) (i : N) (r : irec) : eff :=
   match r.(i_wait) with
   | WWaiting =>
@@ -232,7 +233,7 @@ Definition ws_rec (fe : frontend) (nw : N) (i : N) (r : irec) : eff :=
                | V2 => done i r (OGot d) nw
                | V1 =>
                    match r.(i_vm) with
-                   | VImm v => mkEff (set_wait r WDone) [] [(i, d)] [(i, verdict_outcome fe d v, nw)]
+                   | VImm v => mkEff (set_wait r (WDone (verdict_outcome fe d v) nw)) [] [(i, d)] [(i, verdict_outcome fe d v, nw)]
                    | VDef => mkEff (set_wait r (WValidating d)) [] [(i, d)] []
                    end
                end
